@@ -1,5 +1,5 @@
 import GbVerif.Model.Tile
-import GbVerif.Spec.Frame
+import GbVerif.Spec.Bits
 import GbVerif.Proofs.Enum
 /-!
 C15 stage (i), the heavy enumeration: `tile::interleave` (64-bit multiply trick) equals the bit
